@@ -10,6 +10,7 @@ import SqlModel.Filters.Output
 import SqlModel.Filters.Stage2
 import SqlModel.Filters.Indent
 import SqlModel.Filters.Reindent
+import SqlModel.Filters.Lift
 import SqlModel.Filters.Aligned
 import SqlModel.Filters.Format
 /-! # SqlModel.Filters — the formatting side of sqlparse, stage 2 (token filters, statement filters, serializer, output formats) -/
